@@ -6,7 +6,10 @@ import FeatModel.Lemmas.C07Krylov
 import FeatModel.Lemmas.C07Krylov2
 import FeatModel.Model.Solver.BiCGStab
 import FeatModel.Model.Solver.Session
+import FeatModel.Model.Solver.Chebyshev
 import FeatModel.Lemmas.C07Session
+import FeatModel.Lemmas.C07Refine
+import FeatModel.Lemmas.C07CG
 import FeatModel.Lemmas.C07Vec
 /-!
 # C07 — iterative solvers report their status truthfully
@@ -29,6 +32,7 @@ Not proved here (observed by the correspondence run only): finite termination / 
 SPD systems; floating-point drift.
 -/
 open FeatModel.Solver
+set_option linter.unusedSectionVars false
 
 section control
 variable {α : Type} [Mul α] [LE α] [LT α] [DecidableLE α] [DecidableLT α]
@@ -142,6 +146,27 @@ theorem C07.min_iter_respected (c : Config α) (s s' : State α) (fin : Bool) (d
   | maxIter => have := (hs.2.2.2.1.1 rfl).2.2.1; omega
   | stagnated => have := (hs.2.2.2.2.1 rfl).2.2.2.2.2.2.1; omega
 
+/-- precedence of the tests in `_analyse_defect`, exactly as coded: (1) non-finite ⇒ `aborted`; (2) diverged ⇒
+    `diverged` (also before `min_iter`); (3) fewer than `min_iter` iterations ⇒ `progress` (even if converged or past
+    `max_iter`: with `min_iter > max_iter` the run goes on to `min_iter`); (4) converged ⇒ `success` (also when
+    `max_iter` is reached in the same step); (5) `max_iter` reached ⇒ `max_iter` (before any stagnation test);
+    (6) otherwise `stagnated` iff stagnation control is on, this step stagnated and the counter reaches
+    `min_stag_iter`, else `progress` -/
+theorem C07.analyse_precedence (c : Config α) (s s' : State α) (chk : Bool) (st : Status)
+    (h : analyseDefect c s chk = (st, s')) :
+    (s.curFin = false → st = .aborted) ∧
+    (s.curFin = true → Diverged c s.defInit s.defCur → st = .diverged) ∧
+    (s.curFin = true → ¬ Diverged c s.defInit s.defCur → s.numIter < c.minIter → st = .progress) ∧
+    (s.curFin = true → ¬ Diverged c s.defInit s.defCur → c.minIter ≤ s.numIter →
+      Converged c s.defInit s.defCur → st = .success) ∧
+    (s.curFin = true → ¬ Diverged c s.defInit s.defCur → c.minIter ≤ s.numIter →
+      ¬ Converged c s.defInit s.defCur → c.maxIter ≤ s.numIter → st = .maxIter) ∧
+    (s.curFin = true → ¬ Diverged c s.defInit s.defCur → c.minIter ≤ s.numIter →
+      ¬ Converged c s.defInit s.defCur → s.numIter < c.maxIter →
+      (st = .stagnated ↔ chk = true ∧ 0 < c.minStag ∧ c.stagRate * s.defPrev ≤ s.defCur ∧
+        c.minStag ≤ s.numStag + 1) ∧ (st = .stagnated ∨ st = .progress)) :=
+  FeatModel.Solver.analyse_precedence c s s' chk st h
+
 /-- no control step ever returns `undefined` -/
 theorem C07.status_never_undefined (c : Config α) (prev s : State α) (fin : Bool) (d : α) :
     (setNewDefect c s fin d).1 ≠ .undefined ∧ (updateDefect c s fin d).1 ≠ .undefined ∧
@@ -221,7 +246,7 @@ theorem C07.stagnated_sound (c : Config α) (upd : Bool) (prev : State α) (ds :
 end control
 
 section solvers
-variable {V α : Type} [Mul α] [Div α] [Neg α] [Zero α] [One α] [LE α] [LT α] [DecidableEq α] [DecidableLE α]
+variable {V α : Type} [Add α] [Mul α] [Div α] [Neg α] [Zero α] [One α] [LE α] [LT α] [DecidableEq α] [DecidableLE α]
   [DecidableLT α]
 
 /-- the instance the driver runs against the real solvers (`Vector Rat n`, any dense matrix, any unit-filter mask, any
@@ -285,6 +310,24 @@ theorem C07.pcg_rat_success_true_residual {n : Nat} (A : RMat n) (mask : Vector 
           c.tolRel * vnorm (maskF mask (vaxpy b (matVec A x0) (-1))) ∨
         vnorm (maskF mask (vaxpy b (matVec A res.x) (-1))) ≤ c.tolAbsLow) :=
   C07.pcg_success_true_residual (ratSys A mask pre) (C07.ratSys_lawful A mask pre) c prev x0 b res h hs hit hc
+
+/-- the systems with FEAT's own Jacobi / SOR / SSOR preconditioner (models of property C08) that the driver runs
+    against the real solver + real preconditioner objects satisfy the same laws -/
+theorem C07.ratSysF_lawful {n : Nat} (A : RMat n) (mask : Vector Bool n) (k : FeatPre) (w : Rat) :
+    LawfulLin (ratSysF A mask k w) :=
+  FeatModel.Solver.ratSysF_lawfulLin A mask k w
+
+/-- PCG with one of FEAT's own preconditioners: `success` ⇒ the true filtered residual meets the tolerances -/
+theorem C07.pcg_feat_precond_success_true_residual {n : Nat} (A : RMat n) (mask : Vector Bool n) (k : FeatPre)
+    (w : Rat) (c : Config Rat) (prev : State Rat) (x0 b : RVec n) (res : Result (RVec n) Rat)
+    (h : pcgCorrect (ratSysF A mask k w) c prev x0 b = some res) (hs : res.status = .success)
+    (hit : 0 < res.st.numIter) (hc : calcDef c res.st.numIter = true) :
+    vnorm (maskF mask (vaxpy b (matVec A res.x) (-1))) ≤ c.tolAbs ∧
+      (vnorm (maskF mask (vaxpy b (matVec A res.x) (-1))) ≤
+          c.tolRel * vnorm (maskF mask (vaxpy b (matVec A x0) (-1))) ∨
+        vnorm (maskF mask (vaxpy b (matVec A res.x) (-1))) ≤ c.tolAbsLow) :=
+  C07.pcg_success_true_residual (ratSysF A mask k w) (C07.ratSysF_lawful A mask k w).toLawful c prev x0 b res h hs
+    hit hc
 
 /-- PCG `apply()` ignores any start vector (it has none in the model: the harness passes garbage) and equals
     `correct()` from the zero vector whenever the right-hand side is a filtered defect vector -/
@@ -480,7 +523,7 @@ theorem C07.bicg_returned_defect (S : Sys V α) (hl : Lawful S) (c : Config α) 
 end solvers
 
 section sessions
-variable {V α : Type} [Mul α] [Div α] [Neg α] [Zero α] [One α] [LE α] [LT α] [DecidableEq α] [DecidableLE α]
+variable {V α : Type} [Add α] [Mul α] [Div α] [Neg α] [Zero α] [One α] [LE α] [LT α] [DecidableEq α] [DecidableLE α]
   [DecidableLT α]
 
 /-- `_set_initial_defect` overwrites every convergence-control member (`_def_init/_def_cur/_def_prev/_num_iter/
@@ -489,7 +532,7 @@ theorem C07.initial_defect_resets_state (c : Config α) (prev1 prev2 : State α)
     setInitialDefect c prev1 fin d = setInitialDefect c prev2 fin d :=
   setInitial_indep c prev1 prev2 fin d
 
-/-- every solver kind (PCG, Richardson, PCR, PMR, PCGNR, BiCGStab): the complete outcome of one `apply()`/`correct()`
+/-- every solver kind (PCG, Richardson, PCR, PMR, PCGNR, BiCGStab, Chebyshev): the complete outcome of one `apply()`/`correct()`
     (status, iterate, counters, defects, defect history) is the same for ANY two control states of the solver object —
     whatever status, iteration count, stagnation count and defects the previous solve ended with -/
 theorem C07.solve_independent_of_history (k : Kind) (S : Sys V α) (c : Config α) (omega : α)
@@ -512,6 +555,74 @@ theorem C07.bicg_session_independent (S : Sys V α) (c : Config α) (omega : α)
     runSession .bicgstab S c omega prev l = independentSession .bicgstab S c omega st l :=
   C07.session_independent .bicgstab S c omega prev st l
 
+/-- every solver kind that goes through the base class (PCG, Richardson, PCR, PMR, PCGNR, BiCGStab, Chebyshev): a solve that does
+    not end with a component (preconditioner) failure IS a control run — `_set_initial_defect` followed by
+    `_set_new_defect` on the defect norms the solver computed, starting from the persistent state `prev` — or, for
+    BiCGStab only, ends in the direct half-step test.  No linear-algebra law is needed; termination (fuel) is part
+    of the statement. -/
+theorem C07.solver_run_is_control_run (k : Kind) (S : Sys V α) (c : Config α) (omega : α) (prev : State α)
+    (isApply : Bool) (x0 b : V) (res : Result V α) (h : solveOne k S c omega prev isApply x0 b = some res)
+    (hna : res.status ≠ .aborted) :
+    (∃ (ds : List (Bool × α)) (sts : List Status) (tr : List α),
+        runControl c false prev ds = (sts, some (res.st, tr)) ∧ sts.getLast? = some res.status) ∨
+      (k = .bicgstab ∧ HalfCtl c res) :=
+  solveOne_isRun k S c omega prev isApply x0 b res h hna
+
+/-- THE STOPPING LOGIC, for every solver kind, every configuration (binding `tol_abs`, `tol_abs_low` escape,
+    `min_iter > max_iter`, …) and every input: whatever a solve returns (other than a preconditioner failure),
+    * it is never `undefined`;
+    * `success` ⇒ either no iteration was made and the initial defect is `< tol_abs_low` or `≤ eps²`, or
+      `def_cur ≤ tol_abs ∧ (def_cur ≤ tol_rel·def_init ∨ def_cur ≤ tol_abs_low)`, not diverged, `num_iter ≥ min_iter`;
+    * `max_iter` ⇒ `num_iter = max(1, min_iter, max_iter)` (= `max_iter` in the usual case `1 ≤ max_iter ≥ min_iter`),
+      not converged, not diverged;
+    * `diverged` ⇒ `def_cur > div_abs ∨ def_cur > div_rel·def_init`;
+    * `aborted` (as a control outcome) ⇒ the stored defect is not finite;
+    * `stagnated` ⇒ stagnation control on, counter ≥ `min_stag_iter`, last step stagnated, neither converged nor
+      diverged, `min_iter ≤ num_iter < max_iter` (trace version: `C07.solver_stagnated_trace`). -/
+theorem C07.solver_stopping_logic (k : Kind) (S : Sys V α) (c : Config α) (omega : α) (prev : State α)
+    (isApply : Bool) (x0 b : V) (res : Result V α) (h : solveOne k S c omega prev isApply x0 b = some res)
+    (hna : res.status ≠ .aborted) :
+    res.status ≠ .undefined ∧
+    (res.status = .success →
+      (res.st.numIter = 0 ∧ res.st.defCur = res.st.defInit ∧
+        (res.st.defInit < c.tolAbsLow ∨ res.st.defInit ≤ c.eps2)) ∨
+      (0 < res.st.numIter ∧ res.st.defCur ≤ c.tolAbs ∧
+        (res.st.defCur ≤ c.tolRel * res.st.defInit ∨ res.st.defCur ≤ c.tolAbsLow) ∧
+        ¬ Diverged c res.st.defInit res.st.defCur ∧ c.minIter ≤ res.st.numIter)) ∧
+    (res.status = .maxIter → res.st.numIter = max 1 (max c.minIter c.maxIter) ∧
+      ¬ Converged c res.st.defInit res.st.defCur ∧ ¬ Diverged c res.st.defInit res.st.defCur) ∧
+    (res.status = .diverged → 0 < res.st.numIter ∧
+      (c.divAbs < res.st.defCur ∨ c.divRel * res.st.defInit < res.st.defCur)) ∧
+    (res.status = .aborted → res.st.curFin = false) ∧
+    (res.status = .stagnated → 0 < c.minStag ∧ c.minStag ≤ res.st.numStag ∧
+      c.stagRate * res.st.defPrev ≤ res.st.defCur ∧ ¬ Converged c res.st.defInit res.st.defCur ∧
+      ¬ Diverged c res.st.defInit res.st.defCur ∧ c.minIter ≤ res.st.numIter ∧ res.st.numIter < c.maxIter) := by
+  rcases solveOne_isRun k S c omega prev isApply x0 b res h hna with hr | ⟨_, hh⟩
+  · exact isRun_facts c prev res.st res.status hr
+  · exact halfCtl_facts c res hh
+
+/-- `stagnated`, trace version, for every solver kind: the solve is a control run whose trace of stored defects
+    (latest first) starts with `def_cur` and whose last `min_stag_iter` entries each are `≥ stag_rate ×` their
+    predecessor (`C07.stagRun_spec`) -/
+theorem C07.solver_stagnated_trace (k : Kind) (S : Sys V α) (c : Config α) (omega : α) (prev : State α)
+    (isApply : Bool) (x0 b : V) (res : Result V α) (h : solveOne k S c omega prev isApply x0 b = some res)
+    (hs : res.status = .stagnated) :
+    ∃ tr : List α, tr.head? = some res.st.defCur ∧ 0 < c.minStag ∧ c.minStag ≤ stagRun c tr := by
+  rcases solveOne_isRun k S c omega prev isApply x0 b res h (by rw [hs]; simp) with
+    ⟨ds, sts, tr, hrun, hlast⟩ | ⟨_, _, hh⟩
+  · rw [hs] at hlast
+    have := C07.stagnated_sound c false prev ds sts res.st tr hrun hlast
+    exact ⟨tr, this.2.2, this.1, this.2.1⟩
+  · rcases hh with ⟨e, _⟩ | ⟨e, _⟩ <;> rw [hs] at e <;> cases e
+
+/-- Chebyshev (for any eigenvalue bounds, any start vector of the power method): the defect is recomputed from the
+    iterate in every step, so the status is judged from the true filtered residual of the returned iterate — the
+    soundness statement `SolveSound` (spelled out in `C07.pcg_correct_sound`), no law needed -/
+theorem C07.cheb_correct_sound (S : Sys V α) (c : Config α) (prev : State α) (minEv maxEv : α) (x0 b : V)
+    (res : Result V α) (h : chebIntern S c prev minEv maxEv b x0 (resid S b x0) = some res) :
+    SolveSound c x0 (S.nrm (resid S b x0)) (S.nrm (resid S b res.x)) res :=
+  solveSound_of S c b x0 _ res (chebIntern_spec S c prev minEv maxEv b x0 _ res h)
+
 end sessions
 
 /-- the point excluded by `calcDef = true` (open finding c07-edge:F3), by evaluation: Richardson on the 1×1 system
@@ -525,3 +636,52 @@ theorem C07.success_without_defect_calc_witness :
       = some (.success, 2, [-3], 1, 4, false) ∧
     witnessCfg.tolRel = 1 ∧ witnessCfg.minIter = 2 ∧ witnessCfg.maxIter = 2 ∧ witnessCfg.skipDefCalc = true := by
   decide +kernel
+
+/-- FULL STATEMENT of the convergence clause for CG in exact arithmetic (not proved): for a symmetric positive definite
+    rational matrix, plain CG with `tol_rel = 0`, no iteration limits in the way, returns `success` with an exactly
+    zero residual after at most `n` iterations.
+    What is proved is `C07.cg_termination_partial` below: the classical induction (mutually orthogonal residuals,
+    mutually A-conjugate search directions, non-zero step lengths) for every iteration of the PCG model.  What is
+    missing is the final counting step: `n + 1` non-zero mutually A-conjugate vectors cannot exist in `ℚⁿ` when
+    `xᵀAx > 0` (linear independence / `finrank`, Mathlib.LinearAlgebra) — observed by the correspondence run
+    (exact termination within `n_free` iterations is asserted for every in-scope SPD case). -/
+def C07.CgTerminationStatement : Prop :=
+  ∀ (n : Nat) (A : RMat n), (∀ i j : Fin n, A[i][j] = A[j][i]) →
+    (∀ x : RVec n, x ≠ vzero n → 0 < vdot x (matVec A x)) →
+    ∀ (c : Config Rat) (prev : State Rat) (x0 b : RVec n) (res : Result (RVec n) Rat),
+      c.tolRel = 0 → c.tolAbsLow = 0 → c.minIter = 0 → c.minStag = 0 → n ≤ c.maxIter → 0 ≤ c.tolAbs →
+      (∀ d : Rat, ¬ (c.divAbs < d ∨ c.divRel * vnorm (maskF (Vector.ofFn fun _ => false) (vaxpy b (matVec A x0) (-1))) < d)) →
+      pcgCorrect (ratSys A (Vector.ofFn fun _ => false) none) c prev x0 b = some res →
+      res.status = .success ∧ res.st.numIter ≤ n ∧ matVec A res.x = b
+
+/-- the classical CG induction on the PCG model, for any system satisfying `CgLaws` (symmetric `dot`, bilinear over
+    `axpy`/`scale`, `A` and the preconditioner `M` self-adjoint, no filter, the preconditioner never fails): after
+    `num_iter` iterations there is a history of the `num_iter − 1` completed iterations (newest first) in which
+    * every step length is non-zero and links consecutive residuals, `r_next = r − α A p`, `z = M r`;
+    * residuals are mutually M-orthogonal: `<r_i, z_j> = 0` and directions mutually A-conjugate: `<p_i, A p_j> = 0`
+      for all `i ≠ j` in the history (pairwise, newer against older);
+    * the residual `rf` and direction `pf` of the last iteration are orthogonal / conjugate to ALL of them.
+    Neither linearity of `A` nor of `M` is used.  (`_partial`: see `C07.CgTerminationStatement`.) -/
+theorem C07.cg_termination_partial {V : Type} (S : Sys V Rat) (M : V → V) (hl : CgLaws S M) (c : Config Rat)
+    (prev : State Rat) (x0 b : V) (res : Result V Rat) (h : pcgCorrect S c prev x0 b = some res)
+    (hpos : 0 < res.st.numIter) :
+    ∃ (rf pf : V) (H : List (CgEntry V)), H.length + 1 = res.st.numIter ∧
+      H.Pairwise (fun e1 e2 => S.ops.dot e1.r e2.z = 0 ∧ S.ops.dot e1.p (S.A e2.p) = 0) ∧
+      (∀ e ∈ H, e.alpha ≠ 0 ∧ e.z = M e.r) ∧
+      (∀ e ∈ H, S.ops.dot rf e.z = 0 ∧ S.ops.dot rf e.p = 0 ∧ S.ops.dot pf (S.A e.p) = 0) ∧
+      S.ops.dot rf pf = S.ops.dot rf (M rf) := by
+  obtain ⟨rf, pf, zf, gf, H, hinv, hlen⟩ := pcgIntern_cg S M hl c prev x0 _ res h hpos
+  obtain ⟨hg, hrp, hz, _, horth, hch⟩ := hinv
+  exact ⟨rf, pf, H, hlen, chain_pairwise S M H rf hch, chain_entries S M H rf hch, horth, by rw [hrp, hg, hz]⟩
+
+/-- the same for the system the driver executes: plain CG on any symmetric rational matrix of any size -/
+theorem C07.cg_rat_orthogonality {n : Nat} (A : RMat n) (hs : ∀ i j : Fin n, A[i][j] = A[j][i]) (c : Config Rat)
+    (prev : State Rat) (x0 b : RVec n) (res : Result (RVec n) Rat)
+    (h : pcgCorrect (ratSys A (Vector.ofFn fun _ => false) none) c prev x0 b = some res)
+    (hpos : 0 < res.st.numIter) :
+    ∃ (rf pf : RVec n) (H : List (CgEntry (RVec n))), H.length + 1 = res.st.numIter ∧
+      H.Pairwise (fun e1 e2 => vdot e1.r e2.z = 0 ∧ vdot e1.p (matVec A e2.p) = 0) ∧
+      (∀ e ∈ H, e.alpha ≠ 0 ∧ e.z = e.r) ∧
+      (∀ e ∈ H, vdot rf e.z = 0 ∧ vdot rf e.p = 0 ∧ vdot pf (matVec A e.p) = 0) ∧
+      vdot rf pf = vdot rf rf :=
+  C07.cg_termination_partial _ (fun v => v) (ratSys_cgLaws A hs) c prev x0 b res h hpos
